@@ -171,7 +171,17 @@ func (c *rconn) build(r reply, req []byte, n int) []byte {
 				return append(p.ToBytes()[:240], 53, 9, 1) // undecodable
 			}
 		}
-		return p.ToBytes()
+		b := p.ToBytes()
+		if n%3 == 1 { // a server that does not pad its replies to the 300 octets of BOOTP
+			e := len(b)
+			for e > 241 && b[e-1] == 0 {
+				e--
+			}
+			if b[e-1] == 255 {
+				b = b[:e]
+			}
+		}
+		return b
 	}
 	q, err := dhcpv6.MessageFromBytes(req)
 	if err != nil {
